@@ -191,7 +191,23 @@ class SeqGen:
             else:
                 bid = self.g.fresh("b")
                 bops, info = self.g.blueprint(bid, SR=SR, nseg=nseg, kinds=kinds, waits=0.0, markers=markers, total=N)
-                if waits and r.random() < waits and N >= 8:
+                if waits and r.random() < waits * 0.4 and N >= 16:
+                    # two waituntils: ramp, wait, ramp, wait, ramp with whole-sample boundaries
+                    a = r.randint(2, 3)
+                    w1 = r.randint(a + 2, a + 4)
+                    c = r.randint(2, 3)
+                    w2 = r.randint(w1 + c + 2, N - 2)
+                    bops = [{"op": "bp.new", "id": bid},
+                            {"op": "bp.insert", "id": bid, "pos": -1, "fn": "ramp", "args": [enc(dyadic(r)), enc(dyadic(r))], "dur": enc(a / SR), "name": None},
+                            {"op": "bp.insert", "id": bid, "pos": -1, "fn": "waituntil", "args": [enc(w1 / SR)], "dur": None, "name": None},
+                            {"op": "bp.insert", "id": bid, "pos": -1, "fn": "ramp", "args": [enc(dyadic(r)), enc(dyadic(r))], "dur": enc(c / SR), "name": None},
+                            {"op": "bp.insert", "id": bid, "pos": -1, "fn": "waituntil", "args": [enc(w2 / SR)], "dur": None, "name": None},
+                            {"op": "bp.insert", "id": bid, "pos": -1, "fn": "ramp", "args": [enc(dyadic(r)), enc(dyadic(r))], "dur": enc((N - w2) / SR), "name": None},
+                            {"op": "bp.setSR", "id": bid, "SR": enc(SR)}]
+                    info = {"SR": SR, "counts": [a, w1 - a, c, w2 - w1 - c, N - w2], "N": N}
+                    if markers:
+                        bops += self.g.markers(bid, info)
+                elif waits and r.random() < waits and N >= 8:
                     # replace by: ramp, waituntil, ramp with whole-sample boundaries
                     a = r.randint(2, N // 2 - 2) if N // 2 - 2 >= 2 else 2
                     w = r.randint(a + 2, N - 2)
